@@ -490,7 +490,51 @@ pub fn c04(ctx: &mut Ctx) {
     // of the parser must not break this check); `bytes` renders the implementation's own tree
     run_docprop(ctx, DocProp { evals, opts: opts_presets, exhaustive: false, n_rand: (2500, 60000), pools: vec![3, 4, 5, 6, 7, 8, 9, 10, 11, 12, 14, 15, 16, 17, 18], tweak: no_tweak, extra: None, max_docs: 3, with_chars: true, what: "adversarial name pools only; both presets x both sort options" });
 }
+/// implementation-only: one element with `n` distinct children (far beyond what the model can
+/// evaluate per run); the fields and the struct definitions must follow the document (unsorted)
+/// resp. the XML name (sorted)
+fn giant_order_check(ctx: &mut Ctx, n: usize) {
+    let t0 = std::time::Instant::now();
+    let mut doc = String::from("<r>");
+    for i in 0..n {
+        // names whose document order differs from their name order
+        doc.push_str(&format!("<c{} k=\"1\"/>", (i * 7919) % n));
+    }
+    doc.push_str("</r>");
+    let mut tab = ErrTab::default();
+    let res = run_impl_guarded(&[doc.clone().into_bytes()], &RCfg::default(), &mut tab, 120);
+    let ImplResult::Tree(_, e) = &res else {
+        ctx.impl_failures.push(json::obj(vec![("check", json::s("giant-order")), ("what", json::s(format!("a document with {} distinct children is not parsed: {}", n, res.class())))]));
+        return;
+    };
+    for sorted in [false, true] {
+        let out = match render(e, &Opts::quick_xml().sorted(sorted)) {
+            Ok(o) => o,
+            Err(m) => {
+                ctx.impl_failures.push(json::obj(vec![("check", json::s("giant-order")), ("what", json::s(format!("rendering {} children panics: {}", n, m)))]));
+                return;
+            }
+        };
+        let fields: Vec<String> = out.lines().skip_while(|l| !l.starts_with("pub struct R ")).skip(1).take_while(|l| !l.starts_with('}')).filter(|l| l.trim_start().starts_with("pub ")).map(|l| l.trim_start()[4..].split(':').next().unwrap_or("").to_string()).collect();
+        let structs: Vec<String> = out.lines().filter(|l| l.starts_with("pub struct ")).skip(1).map(|l| l[11..].split(' ').next().unwrap_or("").to_lowercase()).collect();
+        let mut expected: Vec<String> = (0..n).map(|i| format!("c{}", (i * 7919) % n)).collect();
+        if sorted {
+            expected.sort();
+        }
+        if fields != expected || structs != expected {
+            let at = fields.iter().zip(expected.iter()).position(|(a, b)| a != b).unwrap_or(fields.len().min(expected.len()));
+            ctx.impl_failures.push(json::obj(vec![
+                ("check", json::s("giant-order")),
+                ("what", json::s(format!("{} distinct children <c(i*7919 mod n)/> of one element, sort={}: fields / structs are not in {} order; first difference at index {}: got {:?}, expected {:?}", n, sorted, if sorted { "XML-name" } else { "document" }, at, fields.get(at), expected.get(at)))),
+                ("documents", J::A(vec![json::s(format!("<r>" ) + &format!("<c{} k=\"1\"/>...({} children, c(i*7919 mod {}))</r>", 0, n, n))])),
+            ]));
+        }
+    }
+    ctx.meta.push(("x_giant_order_children", J::N(n as i64)));
+    ctx.meta.push(("x_giant_order_seconds", J::F((t0.elapsed().as_secs_f64() * 10.0).round() / 10.0)));
+}
 pub fn c09(ctx: &mut Ctx) {
+    giant_order_check(ctx, if ctx.thorough { 20011 } else { 10007 });
     let mut evals = corr_core();
     evals.extend(vec![ev("exact", "or_exact", "oracle"), ev("reflects", "or_reflects", "oracle"), ev("only_order", "or_only_order", "oracle"), ev("hyp", "in_hyp_docs", "hyp")]);
     fn tweak(g: &mut GenCfg, rng: &mut Rng) {
